@@ -25,6 +25,7 @@ import SharkVerif.Lemmas.View
 import SharkVerif.Lemmas.ByClass
 import SharkVerif.Lemmas.RepartitionLoop
 import SharkVerif.Lemmas.BinarySub
+import SharkVerif.Lemmas.SortedRuns
 namespace SharkVerif.C03
 open SharkVerif.CheckedNat SharkVerif.Gen.BatchArith SharkVerif.BatchArith SharkVerif.Dataset
 
@@ -1072,6 +1073,42 @@ theorem binarySubProblem_spec (d : CData ι) (hne : ∀ b ∈ d.labels.batches, 
         sub.transformLabels (fun l => if l = c1 then 1 else 0) [] := by
   intro sm bg fl l1 s1 k1 l2 l3 s2 k2
   exact bsp_aux d hne c0 c1 sm bg fl l1 l2 l3 s1 k1 s2 k2 rfl rfl rfl rfl rfl rfl rfl rfl rfl rfl
+
+theorem ne_some_comp (c : Nat) : ((fun x : Option Nat => x != some c) ∘ some) = (fun x : Nat => x != c) := by
+  funext x
+  by_cases h : x = c
+  · simp [h]
+  · simp [h, bne, show (some x == some c) = false from by simp [h], show (x == c) = false from by simp [h]]
+theorem eq_some_comp (c : Nat) : ((fun x : Option Nat => x == some c) ∘ some) = (fun x : Nat => x == c) := by
+  funext x
+  by_cases h : x = c <;> simp [h]
+
+/-- **binarySubProblem_exact**: on a dataset whose batches are non-empty and whose batch classes (label of the
+first element of each batch) `cls` are sorted ascending — what `repartitionByClass` leaves — a successful
+`binarySubProblem(data, c0, c1)` with c0 ≠ c1 returns exactly the batches of class min(c0,c1) followed by the batches
+of class max(c0,c1) (all of them, in order), with every label `l` replaced by `[l = c1]` -/
+theorem binarySubProblem_exact (d : CData ι) (hne : ∀ b ∈ d.labels.batches, b ≠ []) (c0 c1 : Nat) (hc : c0 ≠ c1)
+    (cls : List Nat) (hfl : d.labels.batches.map (·[0]?) = cls.map some) (hs : cls.Pairwise (· ≤ ·))
+    (d' : CData ι) (h : binarySubProblem d c0 c1 = .ok d') :
+    ∃ sub, d.indexedSubset (idxs (min c0 c1) cls 0 ++ idxs (max c0 c1) cls 0) = .ok sub ∧
+      sub.transformLabels (fun l => if l = c1 then 1 else 0) [] = .ok d' := by
+  have hspec := binarySubProblem_spec d hne c0 c1
+  simp only [hfl, List.dropWhile_map, List.takeWhile_map, ne_some_comp, eq_some_comp, List.length_map,
+    List.isEmpty_map] at hspec
+  rw [hspec] at h
+  by_cases e1 : (cls.dropWhile (fun x => x != min c0 c1)).isEmpty = true
+  · simp [e1] at h
+  · simp only [e1, Bool.false_eq_true, if_false] at h
+    by_cases e3 : (((cls.dropWhile (fun x => x != min c0 c1)).dropWhile (fun x => x == min c0 c1)).dropWhile
+        (fun x => x != max c0 c1)).isEmpty = true
+    · simp [e3] at h
+    · simp only [e3, Bool.false_eq_true, if_false, bind_ok] at h
+      obtain ⟨sub, hsub, htr⟩ := h
+      have hlt : min c0 c1 < max c0 c1 := by omega
+      have hruns := runs_eq_idxs cls hs (min c0 c1) (max c0 c1) hlt _ _ _ _ _ _ _ rfl rfl rfl rfl rfl rfl rfl
+        (by intro h0; simp [h0] at e1) (by intro h0; simp [h0] at e3)
+      rw [hruns.1, hruns.2] at hsub
+      exact ⟨sub, hsub, htr⟩
 
 /-- `oneVersusRestProblem`: inputs untouched, label `l` becomes `[l = oneClass]` -/
 theorem oneVersusRest_pairs (d : CData ι) (c : Nat) (h : WF d) :
